@@ -12,7 +12,7 @@ import (
 )
 
 func cycTerm(r Result, des string) string {
-	return fmt.Sprintf("(KCycle (mkCyc %s %s %s))", r.CC, r.Extra, des)
+	return fmt.Sprintf("(KCycle (mkCyc %s %s %s %s %s))", r.CC, r.Extra, des, r.FCalls, r.Final)
 }
 
 func desTerm(r Result, d Designated) string {
@@ -82,7 +82,7 @@ func cycleTags(c Cluster, calls []Call) []string {
 	tags := map[string]bool{}
 	for i := 0; i < len(calls); {
 		cl := calls[i]
-		if cl.Kind != "evict" || actionCode(cl.Action) == 0 {
+		if (cl.Kind != "evict" && cl.Kind != "evictfail") || actionCode(cl.Action) == 0 {
 			switch cl.Kind {
 			case "bind":
 				status[cl.Pod] = pod_status.Binding
@@ -98,10 +98,12 @@ func cycleTags(c Cluster, calls []Call) []string {
 		for k, v := range status {
 			before[k] = v
 		}
-		var evs []Call
-		for i < len(calls) && calls[i].Kind == "evict" && calls[i].Action == cl.Action && calls[i].Preemptor == cl.Preemptor {
+		var evs []Call // accepted and refused: the monitor evaluates clause 1 on every Evict call
+		for i < len(calls) && (calls[i].Kind == "evict" || calls[i].Kind == "evictfail") && calls[i].Action == cl.Action && calls[i].Preemptor == cl.Preemptor {
 			evs = append(evs, calls[i])
-			status[calls[i].Pod] = pod_status.Releasing
+			if calls[i].Kind == "evict" {
+				status[calls[i].Pod] = pod_status.Releasing
+			}
 			i++
 		}
 		for i < len(calls) && calls[i].Kind == "pipe" {
@@ -240,13 +242,14 @@ func Run(dir string, seed uint64, n int, tier string) error {
 			out.Sample(l)
 		}
 	}
-	// (b) T3: generated whole cycles
-	for i := 0; i < n; i++ {
-		c := Gen(root.Fork(uint64(i)))
+	// (b) T3: generated whole cycles: the general stream, the multi-victim stream, and both re-run
+	// with refused Evict / Bind calls
+	emit := func(c Cluster, stream string, idx int) (Result, commitStat) {
 		r := Emit(c)
 		label := withTags(Describe(c)+" => "+r.Desc, cycleTags(c, r.Calls))
 		out.Add(cycTerm(r, "None"), label)
 		out.Count("t3-cycles")
+		out.Count("t3-" + stream)
 		ev := 0
 		for k, v := range r.Stats {
 			out.CountN(k, v)
@@ -254,20 +257,112 @@ func Run(dir string, seed uint64, n int, tier string) error {
 				ev += v
 			}
 		}
+		cs := commits(r.Calls)
+		for _, n := range cs.sizes {
+			out.Count(fmt.Sprintf("commit-evict-calls:%d", min(n, 5)))
+		}
+		out.CountN("commits-evicting", len(cs.sizes))
+		out.CountN("commits-with-accepted-and-refused-eviction", cs.mixed)
+		out.CountN("commits-with-refused-evictions-only", cs.allRefused)
+		out.CountN("commits-with-refused-eviction-of-a-later-victim-after-an-accepted-one", cs.laterRefused)
+		if cs.mixed > 0 {
+			out.Count("t3-cycles-with-accepted-and-refused-eviction-in-one-commit")
+		}
 		if len(r.Calls) == 0 {
 			out.Count("t3-cycles-without-decisions")
 		}
-		if ev > 0 {
+		if ev > 0 || cs.refused > 0 {
 			out.Count("t3-cycles-evicting")
 			out.NonTrivial(label)
 		}
-		if i < 3 {
+		if idx < 2 {
 			out.Sample(label)
 		}
 		if debug {
 			fmt.Fprintln(os.Stderr, label)
 		}
+		return r, cs
 	}
-	out.Stats["rule"] = "T2: purpose-built clusters (for each victim-filter conjunct of preempt / reclaim / consolidation and of the min-runtime plugin, the cluster in which the pending job can only be placed through a victim violating that conjunct, and its positive twin) run through the real actions; the real minruntime plugin opened alone on generated queue forests (depth <= 4) and read back through Session.PreemptVictimFilter / ReclaimVictimFilter with probe jobs started k h 30 min ago (resolved duration) and through Session.PreemptScenarioValidator / ReclaimScenarioValidatorFn on generated victim sets (elastic rule). T3: generated clusters (1-3 nodes, two-level queue trees with min-runtime settings / defaults / resolve method, jobs of 1-3 pods with priorities 25..125, explicit preemptibility, start times 20 min .. 8 h 40 min ago, elastic gangs, terminating pods) through allocate + a random subset of consolidation, reclaim, preempt, stalegangeviction with the default plugin tiers. Non-trivial = a T2 case, or a cycle with at least one reclaim / preempt / consolidation eviction; distinct by cluster and decisions."
+	faulted := 0
+	withFaults := func(r *u.Rng, c Cluster, res Result, cs commitStat, want int) {
+		nbind := 0
+		for _, cl := range res.Calls {
+			if cl.Kind == "bind" {
+				nbind++
+			}
+		}
+		for _, d := range FaultPatterns(r, c, cs.evictCalls, nbind, cs.maxRun, want) {
+			emit(d, "faults", faulted)
+			faulted++
+		}
+	}
+	nGen, nGang := n*11/20, n*3/20
+	for i := 0; i < nGen; i++ {
+		rg := root.Fork(uint64(i))
+		c := Gen(rg)
+		res, cs := emit(c, "general", i)
+		if i%3 == 0 {
+			withFaults(rg.Fork(7), c, res, cs, 1)
+		}
+	}
+	for i := 0; i < nGang; i++ {
+		rg := root.Fork(uint64(5000000 + i))
+		c := GenGang(rg)
+		res, cs := emit(c, "gangs", i)
+		withFaults(rg.Fork(7), c, res, cs, 3)
+	}
+	out.Stats["rule"] = "T2: purpose-built clusters (for each victim-filter conjunct of preempt / reclaim / consolidation and of the min-runtime plugin, the cluster in which the pending job can only be placed through a victim violating that conjunct, and its positive twin; plus commits with refused evictions: two victims / a gang of three victims / two pods moved by consolidation with the first, a later, or every Cache.Evict call refused, and a refused Bind earlier in the cycle) run through the real actions; the real minruntime plugin opened alone on generated queue forests (depth <= 4) and read back through Session.PreemptVictimFilter / ReclaimVictimFilter with probe jobs started k h 30 min ago (resolved duration) and through Session.PreemptScenarioValidator / ReclaimScenarioValidatorFn on generated victim sets (elastic rule). T3, three streams through allocate + a random subset of consolidation, reclaim, preempt, stalegangeviction with the default plugin tiers: (general, 11/20 of n) generated clusters (1-3 nodes, two-level queue trees with min-runtime settings / defaults / resolve method, jobs of 1-3 pods with priorities 25..125, explicit preemptibility, start times 20 min .. 8 h 40 min ago, elastic gangs, terminating pods); (gangs, 3/20 of n) clusters in which one statement has to evict 2-4 pods: nodes of 4 or 8 GPUs filled with victim gangs of 1-4 one-GPU pods (gang or elastic), a pending job needing 2-4 GPUs at once as one pod, as a gang of 1-GPU pods or as two 2-GPU pods, by preempt / reclaim / consolidation (fragmented nodes: several running pods move together), often with a small job that allocate binds first; (faults) every gang cluster with evictions re-run under up to 3, every third evicting general cluster under 1 fault pattern derived from its run without faults: the recording cache REFUSES (returns an error, the call does not reach the cluster) the k-th Cache.Evict call of the cycle (k = 0, 1, 2), the call at position k of EVERY commit (k = 0, 1, 2 and pairs), a random subset of the Evict calls, all of them, and these combined with a refused Cache.Bind (1 in 4 patterns when the cycle binds). Fault distribution of this run: counters commits-evicting, commit-evict-calls:N (Evict calls per commit), commits-with-accepted-and-refused-eviction, commits-with-refused-eviction-of-a-later-victim-after-an-accepted-one (the shape on which a Commit that stops at the first refused eviction loses the nomination), commits-with-refused-evictions-only, call:evictfail, call:bindfail, call:orphan (pods left Allocated in the session behind a refused Bind). Non-trivial = a T2 case, or a cycle with at least one reclaim / preempt / consolidation Evict call (accepted or refused); distinct by cluster, fault pattern and decisions."
 	return out.Flush()
+}
+
+type commitStat struct {
+	sizes        []int // Evict calls (accepted or refused) per commit
+	evictCalls   int   // Evict calls of the three actions
+	maxRun       int
+	refused      int
+	mixed        int // commits with an accepted and a refused eviction
+	allRefused   int
+	laterRefused int // commits in which a refused eviction follows an accepted one
+}
+
+// commits cuts the calls as Run/C06.v does (a run of Evict calls, accepted or refused, with one
+// action and preemptor) and counts the fault distribution.
+func commits(calls []Call) commitStat {
+	var cs commitStat
+	for i := 0; i < len(calls); {
+		cl := calls[i]
+		if (cl.Kind != "evict" && cl.Kind != "evictfail") || actionCode(cl.Action) == 0 {
+			i++
+			continue
+		}
+		n, ok, bad, later := 0, 0, 0, false
+		for i < len(calls) && (calls[i].Kind == "evict" || calls[i].Kind == "evictfail") && calls[i].Action == cl.Action && calls[i].Preemptor == cl.Preemptor {
+			n++
+			if calls[i].Kind == "evict" {
+				ok++
+			} else {
+				bad++
+				if ok > 0 {
+					later = true
+				}
+			}
+			i++
+		}
+		cs.sizes = append(cs.sizes, n)
+		cs.evictCalls += n
+		cs.refused += bad
+		if n > cs.maxRun {
+			cs.maxRun = n
+		}
+		if ok > 0 && bad > 0 {
+			cs.mixed++
+		}
+		if ok == 0 {
+			cs.allRefused++
+		}
+		if later {
+			cs.laterRefused++
+		}
+	}
+	return cs
 }
